@@ -604,6 +604,10 @@ def snapshot(kw):
 
 
 def reproduce_finding(ctx, f):
+    if f['id'] == 'D-14b':
+        from chameleon import PageTemplate
+        t = PageTemplate('<div class="a" tal:content="attrs.pop(\'class\', \'gone\')"/>')
+        return [t(), t()] == ['<div class="a">a</div>', '<div class="a">gone</div>']
     return None
 
 
